@@ -45,6 +45,14 @@ def build(repo):
     if u:
         undecided.append(("Cacheable.fingerprint", u))
         ps = []
+    # frame: the fingerprint is a function of its arguments - it stores nothing (no attribute / item / global store anywhere in its body), so it cannot
+    # remember an earlier dictionary (decided on the AST, also when the body itself has left the supported subset)
+    import ast as _ast
+    stores = [_ast.unparse(n) for n in _ast.walk(fn) if (isinstance(n, (_ast.Attribute, _ast.Subscript)) and isinstance(n.ctx, (_ast.Store, _ast.Del)))
+              or isinstance(n, (_ast.Global, _ast.Nonlocal))
+              or (isinstance(n, _ast.Call) and isinstance(n.func, _ast.Name) and n.func.id in ("setattr", "delattr"))
+              or (isinstance(n, _ast.Call) and isinstance(n.func, _ast.Attribute) and n.func.attr in ("__setattr__", "__setitem__", "setdefault", "update", "append", "add"))]
+    vcs.append(VC("Cacheable:fingerprint:stores-nothing", [], z3.BoolVal(not stores), {"law": "fingerprint", "cls": "Cacheable", "detail": str(stores)[:160]}))
     hyp = T.base_axioms() + T.child_laws(("L1", "L2", "L3", "L6v"))
     k = z3.Const("k!fp", T.Key)
     for i, p in enumerate(ps):
